@@ -156,27 +156,46 @@ def guard_atomicity_rule(ctx, program, rid):
         if isinstance(n, (ast.Assign, ast.AnnAssign)) and isinstance(val, ast.Call) and (call_name(val) or "").endswith("Lock"):
             for t in (n.targets if isinstance(n, ast.Assign) else [n.target]):
                 locks.add(norm(t).replace("self.", ""))
-    asks = [n for n in body_walk(fn) if isinstance(n, ast.Call) and (call_name(n) or "").endswith(".handle_dispatch")]
-    recs = [n for n in body_walk(fn) if isinstance(n, ast.Call) and (call_name(n) or "").endswith(".dispatch_accepted")]
+    # dispatch and the methods of the manager it calls (a helper extracted from it is part of the dispatch path)
+    unit = program.unit(uid)
+    scope = [fn]
+    sites = {}  # helper definition -> its call sites inside the scope
+    for g in scope:
+        for n in body_walk(g):
+            if isinstance(n, ast.Call) and isinstance(n.func, ast.Attribute) and isinstance(n.func.value, ast.Name) and n.func.value.id == "self":
+                hu = program.resolve_callable(unit, n.func)
+                if hu is not None and isinstance(hu.node, (ast.FunctionDef, ast.AsyncFunctionDef)):
+                    sites.setdefault(id(hu.node), []).append((g, n))
+                    if not any(hu.node is x for x in scope) and len(scope) < 8:
+                        scope.append(hu.node)
+    asks = [(g, n) for g in scope for n in body_walk(g) if isinstance(n, ast.Call) and (call_name(n) or "").endswith(".handle_dispatch")]
+    recs = [(g, n) for g in scope for n in body_walk(g) if isinstance(n, ast.Call) and (call_name(n) or "").endswith(".dispatch_accepted")]
     if not asks or not recs:
         raise AnalysisError("FunctionDecoratorManager.dispatch: guard calls not found")
 
-    def holder(n):
+    def holder(gn, depth=0):
+        g, n = gn
         p = getattr(n, "_parent", None)
-        while p is not None and p is not fn:
+        while p is not None and p is not g:
             if isinstance(p, ast.AsyncWith):
                 for i in p.items:
                     nm = norm(i.context_expr).replace("self.", "")
                     if isinstance(i.context_expr, ast.Name):
-                        for a in body_walk(fn):
+                        for a in body_walk(g):
                             if isinstance(a, ast.Assign) and any(isinstance(t, ast.Name) and t.id == i.context_expr.id for t in a.targets):
                                 nm = norm(a.value).replace("self.", "")
                     if nm in locks:
                         return p
             p = getattr(p, "_parent", None)
+        if g is not fn and depth < 4:
+            # not locked inside the helper: locked if every call of the helper on the dispatch path is made under one lock
+            hs2 = {holder(cs, depth + 1) for cs in sites.get(id(g), [])}
+            if len(hs2) == 1:
+                return next(iter(hs2))
         return None
 
     hs = {id(holder(n)) if holder(n) is not None else None for n in asks + recs}
+    asks, recs = [n for _, n in asks], [n for _, n in recs]
     ctx.check(None not in hs and len(hs) == 1, rid, uid, "guards are asked and the acceptance recorded under one lock",
               msg=f"FunctionDecoratorManager.dispatch asks the guards ({short(asks[0])}) and records the acceptance ({short(recs[0])}) without holding a common lock (locks of the class: "
               f"{sorted(locks) or 'none'}): two occurrences arriving back to back both pass @time_active(hold_off=N) while the first is suspended in a guard, and the function runs twice",
@@ -318,6 +337,8 @@ def run(ctx):
         for n in body_walk(u.node):
             if isinstance(n, ast.Call) and isinstance(n.func, ast.Attribute) and n.func.attr == "handle_dispatch":
                 callers.add(u.uid)
+    # (a helper that only dispatch calls is part of the dispatch path)
+    callers = {c if not program.only_reached_from(c, {"decorator.py::FunctionDecoratorManager.dispatch"}) else "decorator.py::FunctionDecoratorManager.dispatch" for c in callers}
     ctx.check(callers == {"decorator.py::FunctionDecoratorManager.dispatch"}, "R07.5", "decorator.py::FunctionDecoratorManager.dispatch", "handle_dispatch called only from dispatch",
               msg=f"guard decorators are invoked from {sorted(callers)}", key="callers of handle_dispatch", rel="decorator.py", node=program.func("decorator.py::FunctionDecoratorManager.dispatch"))
     call = program.func("eval.py::EvalFunc.call")
